@@ -222,8 +222,8 @@ func EqualType(t *TypeSpec, a, b Val, o EqOpts, path string) *Mismatch {
 			return &Mismatch{path + ".len", fmt.Sprint(len(a.M)), fmt.Sprint(len(b.M))}
 		}
 		// multiset comparison through canonical sort keys
-		ka := sortedEntryKeys(t, a.M)
-		kb := sortedEntryKeys(t, b.M)
+		ka := sortedEntryKeys(t, a.M, o)
+		kb := sortedEntryKeys(t, b.M, o)
 		for i := range ka {
 			if ka[i] != kb[i] {
 				return &Mismatch{path + ".entries", short([]byte(ka[i])), short([]byte(kb[i]))}
@@ -273,13 +273,13 @@ func EqualStruct(s *StructSpec, a, b *SVal, o EqOpts, path string) *Mismatch {
 
 // sortedEntryKeys renders each entry into a canonical string (value-level, Go state
 // included) and sorts them.
-func sortedEntryKeys(t *TypeSpec, m []KV) []string {
+func sortedEntryKeys(t *TypeSpec, m []KV, o EqOpts) []string {
 	out := make([]string, len(m))
 	for i, kv := range m {
 		var sb strings.Builder
-		canonVal(&sb, t.Key, kv.K)
+		canonVal(&sb, t.Key, kv.K, o)
 		sb.WriteString("=>")
-		canonVal(&sb, t.Elem, kv.V)
+		canonVal(&sb, t.Elem, kv.V, o)
 		out[i] = sb.String()
 	}
 	sort.Strings(out)
@@ -287,7 +287,7 @@ func sortedEntryKeys(t *TypeSpec, m []KV) []string {
 }
 
 // canonVal writes a canonical rendering of the Go-level state of v.
-func canonVal(sb *strings.Builder, t *TypeSpec, v Val) {
+func canonVal(sb *strings.Builder, t *TypeSpec, v Val, o EqOpts) {
 	switch t.Kind {
 	case KBool:
 		fmt.Fprintf(sb, "b%v", v.B)
@@ -298,29 +298,29 @@ func canonVal(sb *strings.Builder, t *TypeSpec, v Val) {
 	case KString:
 		fmt.Fprintf(sb, "s%x", v.S)
 	case KBinary:
-		if v.Nil {
+		if v.Nil && !o.NilEmptySame {
 			sb.WriteString("Bnil")
 		} else {
 			fmt.Fprintf(sb, "B%x", v.S)
 		}
 	case KList, KSet:
-		if v.Nil {
+		if v.Nil && !o.NilEmptySame {
 			sb.WriteString("Lnil")
 			return
 		}
 		sb.WriteString("[")
 		for _, e := range v.L {
-			canonVal(sb, t.Elem, e)
+			canonVal(sb, t.Elem, e, o)
 			sb.WriteString(",")
 		}
 		sb.WriteString("]")
 	case KMap:
-		if v.Nil {
+		if v.Nil && !o.NilEmptySame {
 			sb.WriteString("Mnil")
 			return
 		}
 		sb.WriteString("{")
-		for _, k := range sortedEntryKeys(t, v.M) {
+		for _, k := range sortedEntryKeys(t, v.M, o) {
 			sb.WriteString(k)
 			sb.WriteString(",")
 		}
@@ -342,10 +342,10 @@ func canonVal(sb *strings.Builder, t *TypeSpec, v Val) {
 				}
 				sb.WriteString("P")
 			}
-			canonVal(sb, f.Type, fv)
+			canonVal(sb, f.Type, fv, o)
 			sb.WriteString(";")
 		}
-		if s.Holder {
+		if s.Holder && !o.IgnoreHolder {
 			fmt.Fprintf(sb, "unk:%x", v.St.Unk)
 		}
 		sb.WriteString(")")
@@ -355,7 +355,7 @@ func canonVal(sb *strings.Builder, t *TypeSpec, v Val) {
 // CanonStruct renders a struct value canonically (hashing, diagnostics).
 func CanonStruct(s *StructSpec, v *SVal) string {
 	var sb strings.Builder
-	canonVal(&sb, &TypeSpec{Kind: KStruct, Struct: s}, Val{St: v})
+	canonVal(&sb, &TypeSpec{Kind: KStruct, Struct: s}, Val{St: v}, EqOpts{})
 	return sb.String()
 }
 
